@@ -117,6 +117,8 @@ def findlabels_310(code: bytes, opc):
                 if opc.version_tuple >= (3, 13):
                     cachesize = _get_cache_size_313(opc.opname[op])
                     label += 2 * cachesize
+                elif opc.version_tuple >= (3, 12) and opc.opname[op] in ("FOR_ITER", "SEND"):
+                    label += 2
             elif op in opc.JABS_OPS:
                 label = arg * 2
             else:
